@@ -179,6 +179,26 @@ def run_unit(name, scratch, support_dir, tier, seed, rlimit=30, extra_flags=()):
     return ur
 
 
+def run_canary(name, scratch, support_dir, tier, seed, base_ur):
+    """vacuity guard: the same unit once more with `assert(false)` at the entry of every lifted fn; returns the list of fns whose
+    canary did NOT fail (their precondition / the assumptions in scope are contradictory), or None if the run itself failed"""
+    extra = [(x['file'], x['fn'], []) for x in (base_ur.report or {}).get('auto_lifted', [])]
+    drop = [(f['file'], f['key']) for f in (base_ur.report or {}).get('functions', []) if f.get('dropped')]
+    snapshot(scratch)
+    try:
+        ur = _run_unit_once(name, scratch, support_dir, tier, seed, 30, (), extra, drop, canary=True)
+    except Undecided:
+        return None, 0
+    if ur.fatal: return None, 0
+    failed = set()
+    for d in ur.errors:
+        for sp in d.get('spans', []):
+            f, o, ib = locate(ur, sp['file_name'], sp['byte_start'])
+            if o and o.startswith('C00.canary.'): failed.add(o)
+    cans = ur.report.get('canaries', [])
+    return [c for c in cans if c['id'] not in failed], len(cans)
+
+
 def _locate_fn(root, crate, path):
     """`crate::mod::..::[Type::]name` -> (relative file, vspec key) if such a fn exists in the sources"""
     parts = path.split('::')
@@ -204,7 +224,7 @@ def _locate_fn(root, crate, path):
     return None
 
 
-def _run_unit_once(name, scratch, support_dir, tier, seed, rlimit=30, extra_flags=(), extra_lifts=(), force_drop=()):
+def _run_unit_once(name, scratch, support_dir, tier, seed, rlimit=30, extra_flags=(), extra_lifts=(), force_drop=(), canary=False):
     u = UNITS[name]
     root = os.path.join(scratch, 'repo')
     ur = UnitResult(); ur.name = name
@@ -212,7 +232,7 @@ def _run_unit_once(name, scratch, support_dir, tier, seed, rlimit=30, extra_flag
     pre_bad = None
     try:
         # precheck runs on the ORIGINAL sources of the files that will be lifted
-        ur.report = splicer.splice(root, specs, os.path.join(VERIF, 'contracts'), name, extra_lifts, force_drop)
+        ur.report = splicer.splice(root, specs, os.path.join(VERIF, 'contracts'), name, extra_lifts, force_drop, canary)
     except (splicer.SpliceError, splicer.vspec.VspecError) as e:
         raise Undecided('splice (%s): %s' % (name, e))
     except Exception as e:
@@ -235,7 +255,7 @@ def _run_unit_once(name, scratch, support_dir, tier, seed, rlimit=30, extra_flag
     for c in u['cfg']:
         cmd += ['--cfg', c]
     if u.get('export'):
-        cmd += ['--compile', '--export', os.path.join(scratch, '%s.vir' % u['crate']), '-o', os.path.join(scratch, 'lib%s.rlib' % u['crate'])]
+        if not canary: cmd += ['--compile', '--export', os.path.join(scratch, '%s.vir' % u['crate']), '-o', os.path.join(scratch, 'lib%s.rlib' % u['crate'])]
     cmd += ['--error-format=json', '--output-json', '--time', '--multiple-errors', '10', '--rlimit', str(rlimit),
             '--smt-option', 'smt.random_seed=%d' % (seed % 1000)]
     cmd += list(extra_flags)
